@@ -1,5 +1,85 @@
 import KrroodVerif.Sexp
+import KrroodVerif.Model.SymbolGraph
+import KrroodVerif.Drive.SG
+/-!
+C20 driver. Case: `(loop n <op> …)`: the body is run `n` times (labels and query keys of iteration `i` are shifted
+by `1000·i`); after each iteration every user reference (instances, query objects) is dropped, `gc.collect()`,
+`remove_dead_instances()`, and the size of every krrood-held structure is recorded.
+Observation: the instances that survive, and per structure `flat|grow|mixed` over the last three iterations
+(+ `clean|stale`: entries left behind that belong to no live instance).
+-/
 namespace KrroodVerif.Drive.C20
-/-- stub: replaced when the model for C20 is built -/
-def run (_ : Sexp) : String := "model=unimplemented\tspec=unimplemented\ttrig="
+open KrroodVerif KrroodVerif.SG KrroodVerif.Drive.SG
+
+def shiftOp (d : Nat) : Op → Op
+  | .new o c p => .new (o + d) c p
+  | .drop o => .drop (o + d)
+  | .rel f s t => .rel f (s + d) (t + d)
+  | .set f s t => .set f (s + d) (t + d)
+  | .mkq k c dom => .mkq (k + d) c (dom.map (·.map (· + d)))
+  | .evalq k => .evalq (k + d)
+  | .dropq k => .dropq (k + d)
+  | op => op
+
+def cleanup (body : List Op) : List Op :=
+  body.filterMap (fun op => match op with | .mkq k _ _ => some (.dropq k) | _ => none) ++
+  body.filterMap (fun op => match op with | .new o _ _ => some (.drop o) | _ => none) ++ [.sweep]
+
+structure Sizes where
+  nodes : Nat
+  cls : Nat
+  edges : Nat
+  rel : Nat
+  exprs : Nat
+
+def sizes (st : DSt) : Sizes := ⟨st.g.nodes.length, st.g.byClass.length, st.g.edges.length, st.g.relIdx.length, st.h.exprs⟩
+
+def classify (l : List Nat) : String :=
+  match l.reverse with
+  | c :: b :: a :: _ => if a < b && b < c then "grow" else if a == b && b == c then "flat" else "mixed"
+  | _ => "short"
+
+def relStale (st : DSt) : Bool :=
+  st.g.relIdx.any (fun r => !st.g.edges.any (fun e => e.fld == r.1 && e.src.idx == r.2.1 && e.tgt.idx == r.2.2))
+
+/-- run the loop; returns the final state, the sizes after every iteration, and the instances that were
+registered and died in the LAST clean-up (their `_instance_index` entries cannot have been overwritten) -/
+def runLoop (q : Quirks) (n : Nat) (body : List Op) : DSt × List Sizes × Bool × Bool :=
+  let rec go (i : Nat) (fuel : Nat) (st : DSt) (acc : List Sizes) (diedLast diedEver : Bool) :
+      DSt × List Sizes × Bool × Bool :=
+    match fuel with
+    | 0 => (st, acc, diedLast, diedEver)
+    | fuel + 1 =>
+      let b := body.map (shiftOp (1000 * i))
+      let st1 := runFrom q st b
+      let before := st1.h.live.map (·.obj)
+      let st2 := runFrom q st1 (cleanup b)
+      let died := before.any (fun o => !st2.h.isLive o)
+      let diedBody := (st.h.live.map (·.obj) ++ (b.filterMap fun op => match op with | .new o _ _ => some o | _ => none)).any
+        (fun o => !st2.h.isLive o)
+      go (i + 1) fuel st2 (acc ++ [sizes st2]) died (diedEver || diedBody)
+  go 0 n (St.init lifo) [] false false
+
+def obs (q : Quirks) (n : Nat) (body : List Op) : String :=
+  let (st, ss, diedLast, diedEver) := runLoop q n body
+  if st.err then "exc" else
+  let surv := sortNat (st.h.live.map (·.obj))
+  let inst := if !q.keepDeadIndex then "clean" else if diedLast then "stale" else if diedEver then "?" else "clean"
+  let rel := classify (ss.map (·.rel)) ++ "/" ++ (if relStale st then "stale" else "clean")
+  s!"surv={showNats surv} nodes={classify (ss.map (·.nodes))} cls={classify (ss.map (·.cls))} " ++
+  s!"edges={classify (ss.map (·.edges))} rel={rel} inst={inst} expr={classify (ss.map (·.exprs))} rx={classify (ss.map (·.exprs))}"
+
+def specObs : String := "surv=[] nodes=flat cls=flat edges=flat rel=flat/clean inst=clean expr=flat rx=flat"
+
+def run (s : Sexp) : String :=
+  match s with
+  | .list (.atom "loop" :: n :: xs) =>
+    match n.asNat?, parseOps xs with
+    | some n, some body =>
+      let hasQuery := body.any (fun op => match op with | .mkq .. => true | _ => false)
+      let hasNew := body.any (fun op => match op with | .new .. => true | _ => false)
+      let trig := joinTrig [(hasQuery, "F-C20-1"), (hasNew, "F-C20-2")]
+      s!"model={obs Quirks.asIs n body}\tspec={specObs}\ttrig={trig}\tmodel_fixed={obs Quirks.c14Fixed n body}"
+    | _, _ => "error=bad-case"
+  | _ => "error=bad-case"
 end KrroodVerif.Drive.C20
